@@ -90,6 +90,9 @@ def to_bool_term(v):
         return z3.BoolVal(len(v.items) > 0)
     if isinstance(v, RecordV):
         return z3.BoolVal(len(v.fields) > 0)
+    if isinstance(v, (ArmV, OptArmV)):
+        # `if arm:` / `not arm` distinguishes the labels 0, 0.0 and '' from all others (C20, MT3)
+        raise Unsupported('arm-parametric: truth value of an arm label')
     raise Unsupported('truthiness of %r' % (v,))
 
 
